@@ -48,8 +48,10 @@ CHECKS = {
              "move_qnidx, lossless compress in three parameter styles, variational compress) applied to states, operators and "
              "density operators with redundant, rank-deficient and dimension-1 bonds produced by generated arithmetic, on chains of "
              "1-6 sites; after every step: dense object unchanged, isometry recomputed from the raw arrays, no bond grew, two "
-             "opposite sweeps respect the physical bound, idempotence, compress(ret_s) equals the dense Schmidt spectra.",
-        design_ref="DESIGN.md §4 C04",
+             "opposite sweeps respect the physical bound, idempotence, compress(ret_s) equals the dense Schmidt spectra, the centre ends "
+             "on the advertised stop site; variational compression of operator x state equals the dense product from a full-size guess "
+             "and (label-free models) from a bond-1/2 random guess with a long unperturbed schedule.",
+        design_ref="DESIGN.md §4 C04, §9.2",
         note="Trusted: numpy SVD / dense algebra. Mpo sites are scaled isometries by the library's documented norm spreading.",
         technique="model-based property testing (Hypothesis-generated gauge programs) with dense invariants and idempotence/metamorphic relations",
     ),
@@ -93,7 +95,8 @@ CHECKS = {
              "omega, StackedMpo split) cases; exact diagonalisation of the dense Hamiltonian restricted to the sector is the oracle: "
              "every reported energy of every sweep and root is an upper bound (Cauchy interlacing), returned states are normalised, "
              "in the sector with valid labels, their energy is variational and equals Mps.expectation; the omega variant bounds "
-             "min (E-omega)^2; unperturbed untruncated sweeps are monotone; equality with exact diagonalisation is asserted where "
+             "min (E-omega)^2; unperturbed untruncated sweeps are monotone and the energy of the returned state lies between the minima of the "
+             "last two such sweeps (local consistency: catches a state that does not belong to the reported energies); equality with exact diagonalisation is asserted where "
              "DMRG provably reaches it (two sites, two-site update) and reported as a statistic elsewhere.",
         design_ref="DESIGN.md §4 C08",
         note="Trusted: numpy eigvalsh. primme absent (direct + davidson only). Dense dimension <= 512.",
@@ -106,8 +109,9 @@ CHECKS = {
              "Taylor P&C of order 1-6, RK4 P&C and general-RK P&C with every tableau vs the exact algebraic replica (stability "
              "polynomial by stage recursion), also for time-dependent Hamiltonian callables vs a dense RK stepper with the same "
              "tableau; CMF variants vs the exact state within the scheme's error bound; krylov vs RK45 vs RK23; adaptive stepping "
-             "within the controller's tolerance; norm/energy conservation of one-site PS at small bond; bond limit for every scheme; "
-             "input state unchanged.",
+             "within the controller's tolerance (100*rtol) and prefactor covariance of the controller (evolve(c psi) = c evolve(psi)); "
+             "norm/energy conservation of one-site PS at small bond; bond limit for every scheme; input state unchanged; the returned "
+             "state carries the configuration it was produced with and the caller's configuration is not re-configured (call splitting).",
         design_ref="DESIGN.md §4 C09",
         note="Trusted: numpy eigh-based exp(-iHt). ||H||=1 by scaling, ||H||dt in [0.03,3], dense dimension <= 128. CMF is only bounded "
              "(its inner sites use scipy's default rtol 1e-3 inside the library).",
@@ -158,9 +162,13 @@ CHECKS = {
              "time, measurements, dump, in-place scale / canonicalise / compress / normalise / tensor overwrite incl. write-through of "
              "the stored ndarray, config changes, model.mpos.clear()); all live objects are snapshotted (tensors x prefactor, qntot) "
              "before every instruction and every object but the documented in-place target must be unchanged afterwards; methods "
-             "documented to return new objects must not return their input.",
-        design_ref="DESIGN.md §4 C13",
-        note="Trusted: snapshot comparison of todense()*coeff. Chain objects; evolve_exact is covered in C10, tree objects in C11/C12, OFS in C17.",
+             "documented to return new objects must not return their input. One case in four is a tree history (TTNS / TTNO on generated "
+             "trees: arithmetic, gauge moves, observers, truncation of copies, twins, four evolution schemes, in-place mutation of node "
+             "tensors / labels / prefactor / normalisation) with the same invariant computed by an independent contraction of the raw node "
+             "tensors, label validity and a no-shared-memory check between live states. Aliasing probes (derive by copy / conj / "
+             "to_complex / scale by exactly one / conj_trans, then mutate one side at once) are injected in every history.",
+        design_ref="DESIGN.md §4 C13, §9",
+        note="Trusted: snapshot comparison of todense()*coeff (chains), numpy contraction of raw node tensors (trees). evolve_exact is covered in C10, OFS in C17.",
         technique="stateful property testing (generated derive/mutate/observe histories, snapshot invariant over all live objects)",
     ),
     "C14": dict(
